@@ -199,6 +199,7 @@ type totals struct {
 	applyGuardNote                       string
 	upd                                  updStats
 	hist                                 histStats
+	tsChains                             tsChainStats
 	fixedRun, fixedOK                    int
 	differs                              map[string]int // copies of accepted blocks whose content is not the original's
 	refs                                 map[string]int // cases by class of repeated element reference
@@ -346,6 +347,20 @@ func (e *env) runBehaviour(shape string, p chain.Params, beh *chain.Behaviour, i
 			verdict = cs.verdict
 			t.addCase(ci, cs, st)
 			if st.Verdict == "accept" && verdict == "ok" {
+				if n%8 == 0 {
+					ts, err := runTimestampChains(e.rec, sim, in, key, ci, tsReps[(n/8)%3])
+					if err != nil {
+						e.c.Infra("behaviour %s step %d: %v", beh.Hash, i, err)
+						return
+					}
+					t.mu.Lock()
+					t.tsChains.runs += ts.runs
+					t.tsChains.blocks += ts.blocks
+					t.tsChains.probes += ts.probes
+					t.tsChains.probeAccepted += ts.probeAccepted
+					t.tsChains.parted += ts.parted
+					t.mu.Unlock()
+				}
 				t2 := time.Now()
 				us, err := runUpdates(e.rec, sim, in, key, ci, e.cb)
 				nsUpdate.Add(int64(time.Since(t2)))
@@ -566,7 +581,7 @@ func work() {
 		replay(c)
 		return
 	}
-	c.Rule("Cases: every block (with its supplement and parent state) of TLC-simulated Ledger behaviours on three network shapes — valid blocks and blocks ending in a defective transaction of the families unbalanced, auth, reuse, intx, timing, revision, proof, formation; reverts and re-applies included — taken before anything has validated it. Per case 6 entry points (validate, per-transaction path, element proofs, apply, revert, encode) x 5 memories (original twice, decoded via multiproof, Share()d proofs, DeepCopy/Copy, JSON; a copy of a block the specification accepts is filed under the key of the original even when its content differs) plus the call of every pooled hashing entry point (block contents and a synthetic set; once sequentially before the concurrent phase, then concurrently on every memory) run from G goroutines (G cycles through 1, 2, 8, 32), under the race detector. For every valid block with non-ephemeral elements additionally 2 update experiments (the block's own update; an empty next block's) x 6 copies of its element proofs obtained differently (independent allocation, multiproof decode, plain decode, JSON, DeepCopy/Copy, Share()d then copied): one UpdateElementProof call per element and copy (logged as M with audits of the neighbouring cells, the other copies and the source), then ValidateTransactionElements / leaf membership of every updated copy. Fifteen fixed behaviours (an output spent, the next block, its revert and another block, in v1 and in v2 form; a v2 storage proof applied, reverted and applied again; v1 contract formed and revised / revised twice / revised and proved in one block, the un-transmitted payout of every v1 revision holding a value in memory that no decoder fills in; v2 storage proof among payments, renewal, expiration, v1 contract life cycle; two revisions of one contract in one block, revision then renewal, two storage proofs under one chain index element; v1 signatures with field-by-field coverage alone and followed by v2 blocks) run among the drawn ones of their shape, with 8 or 32 callers. Histories (ownership of backing arrays, Purity!Place / Look, design model OwnershipMC): on every third drawn behaviour (thorough: every tenth of twenty times as many) and every fixed one the whole chain - genesis, every accepted block, reverts and what is built on top - is replayed for three holders that obtained every element of every update's diffs differently (Copy(); JSON round trip, elements of a reverted block taken afresh from the RevertUpdate; Copy() of the first holder's already refreshed elements after the third update) and refresh every element they keep, spent / revised / resolved ones included, with each ApplyUpdate / RevertUpdate in turn: one M per UpdateElementProof with the array that backs the cell afterwards, P for every update returned (every proof array reachable from it) and every element taken, L (deep digest) of EVERY update returned so far after every holder's pass, audits of the other holders, and the real accumulator's judgement of every proof each holder keeps (one key per update). evaluations = calls executed and logged (entry point calls + UpdateElementProof calls + validations after update + refreshes, looks and judgements of the histories); distinct_nontrivial = distinct keys <<function, content hash of inputs>> that were called at least twice (the agreement clause was exercised), from different goroutines or different copies. The address probes of copy/decode results are counted in coverage (copy_operations_probed), not in evaluations.")
+	c.Rule("Cases: every block (with its supplement and parent state) of TLC-simulated Ledger behaviours on three network shapes — valid blocks and blocks ending in a defective transaction of the families unbalanced, auth, reuse, intx, timing, revision, proof, formation; reverts and re-applies included — taken before anything has validated it. Per case 6 entry points (validate, per-transaction path, element proofs, apply, revert, encode) x 5 memories (original twice, decoded via multiproof, Share()d proofs, DeepCopy/Copy, JSON; a copy of a block the specification accepts is filed under the key of the original even when its content differs) plus the call of every pooled hashing entry point (block contents and a synthetic set; once sequentially before the concurrent phase, then concurrently on every memory) run from G goroutines (G cycles through 1, 2, 8, 32), under the race detector. For every valid block with non-ephemeral elements additionally 2 update experiments (the block's own update; an empty next block's) x 6 copies of its element proofs obtained differently (independent allocation, multiproof decode, plain decode, JSON, DeepCopy/Copy, Share()d then copied): one UpdateElementProof call per element and copy (logged as M with audits of the neighbouring cells, the other copies and the source), then ValidateTransactionElements / leaf membership of every updated copy. Fifteen fixed behaviours (an output spent, the next block, its revert and another block, in v1 and in v2 form; a v2 storage proof applied, reverted and applied again; v1 contract formed and revised / revised twice / revised and proved in one block, the un-transmitted payout of every v1 revision holding a value in memory that no decoder fills in; v2 storage proof among payments, renewal, expiration, v1 contract life cycle; two revisions of one contract in one block, revision then renewal, two storage proofs under one chain index element; v1 signatures with field-by-field coverage alone and followed by v2 blocks) run among the drawn ones of their shape, with 8 or 32 callers. Timestamp representations (a timestamp is its encoded second): every case additionally runs ValidateBlock, ValidateHeader + ValidateOrphan, ApplyBlock and RevertBlock on a copy of the block whose Timestamp, set after sealing (same ID, proof of work and encoding, asserted), carries +1ns / +500ms / +999999999ns / a fixed zone +5:30 / a monotonic reading (rotating), under the key of the original beside the decoded and JSON copies; from every eighth accepted case two chains of empty blocks with equal IDs (whole seconds; a sub-second representation) are applied until the blocks' second is the median, the decoded next block is validated on and applied to both states under one key, and a probe block carrying exactly the median second is validated on both. Histories (ownership of backing arrays, Purity!Place / Look, design model OwnershipMC): on every third drawn behaviour (thorough: every tenth of twenty times as many) and every fixed one the whole chain - genesis, every accepted block, reverts and what is built on top - is replayed for three holders that obtained every element of every update's diffs differently (Copy(); JSON round trip, elements of a reverted block taken afresh from the RevertUpdate; Copy() of the first holder's already refreshed elements after the third update) and refresh every element they keep, spent / revised / resolved ones included, with each ApplyUpdate / RevertUpdate in turn: one M per UpdateElementProof with the array that backs the cell afterwards, P for every update returned (every proof array reachable from it) and every element taken, L (deep digest) of EVERY update returned so far after every holder's pass, audits of the other holders, and the real accumulator's judgement of every proof each holder keeps (one key per update). evaluations = calls executed and logged (entry point calls + UpdateElementProof calls + validations after update + refreshes, looks and judgements of the histories); distinct_nontrivial = distinct keys <<function, content hash of inputs>> that were called at least twice (the agreement clause was exercised), from different goroutines or different copies. The address probes of copy/decode results are counted in coverage (copy_operations_probed), not in evaluations.")
 	c.Assume("the digest (reflection walk over every field, slice up to capacity, pointer and interface; sha256) changes whenever memory reachable from the inputs changes")
 	c.Assume("data races are found by the Go race detector while the trace is recorded, not by the model")
 	c.Assume("honest v1 supplements (chain harness store)")
@@ -745,6 +760,15 @@ func work() {
 	}
 	if t.upd.validated == 0 {
 		c.Infra("vacuity: updated element proofs were never validated by the real accumulator")
+	}
+	c.Cov("timestamp_chains_runs_blocks_probes_probes_accepted_on_the_whole_second_chain", []int{t.tsChains.runs, t.tsChains.blocks, t.tsChains.probes, t.tsChains.probeAccepted})
+	if t.tsChains.runs == 0 || (t.tsChains.probeAccepted == 0 && t.tsChains.parted == 0) {
+		c.Infra("vacuity: timestamp chains %d, probes carrying exactly the median second accepted on the whole-second chain %d", t.tsChains.runs, t.tsChains.probeAccepted)
+	}
+	for _, rep := range tsReps {
+		if t.variants[rep.name] == 0 || t.sameKey[rep.name] == 0 {
+			c.Infra("vacuity: no case ran a copy of its block with the timestamp representation %s", rep.name)
+		}
 	}
 	hs := t.hist
 	c.Cov("history_goroutine_seconds", time.Duration(nsHist.Load()).Seconds())
@@ -1055,6 +1079,7 @@ func judge(c *vlib.Ctx, lines []Event, rj []reject) {
 			attempts++
 			tried = true
 			payload["params"], payload["behaviour"], payload["g"], payload["shape"], payload["hist"] = ci.params, ci.beh, ci.g, ci.shape, ci.hist
+			payload["n"] = ci.n
 			for try := 0; try < 3 && !reproduced; try++ {
 				keys, err := rerun(ci)
 				if err != nil {
@@ -1329,6 +1354,21 @@ func describe(lines []Event, r reject) described {
 				other = strings.Join(ks, "-vs-")
 			}
 			d.key = "result-differs/" + info.fn
+			otherKind := ""
+			if first != nil && first.call != nil {
+				otherKind = first.call.kind
+			}
+			// a block whose timestamp is held in another in-memory representation (same ID, same encoding); when two
+			// representations disagree with each other the sub-second one names the class
+			cls := ""
+			for _, k := range []string{otherKind, info.kind} {
+				if strings.HasPrefix(k, "ts") && cls != "subsecond" {
+					cls = tsClass(k)
+				}
+			}
+			if cls != "" {
+				d.key = "timestamp-representation/" + cls + "/" + info.fn
+			}
 			fr := ""
 			if first != nil {
 				fr = first.Res
@@ -1404,6 +1444,11 @@ func rerun(ci *caseInfo) (map[string]bool, error) {
 		key, err := contentKey(in)
 		if err != nil {
 			return nil, err
+		}
+		if ci.n%8 == 0 {
+			if _, err := runTimestampChains(rec, sim, in, key, ci, tsReps[(ci.n/8)%3]); err != nil {
+				return nil, err
+			}
 		}
 		if _, err := runUpdates(rec, sim, in, key, ci, cb); err != nil {
 			return nil, err
@@ -1619,6 +1664,7 @@ func replay(c *vlib.Ctx) {
 			Behaviour []chain.Step `json:"behaviour"`
 			G         int          `json:"g"`
 			Hist      bool         `json:"hist"`
+			N         int          `json:"n"`
 			Op, Path  string
 		} `json:"case"`
 	}
@@ -1632,7 +1678,7 @@ func replay(c *vlib.Ctx) {
 		probeElements(cb)
 		reportCopies(c, cb)
 	case "case":
-		ci := &caseInfo{n: 1, g: f.Case.G, params: f.Case.Params, beh: f.Case.Behaviour, hist: f.Case.Hist}
+		ci := &caseInfo{n: max(1, f.Case.N), g: f.Case.G, params: f.Case.Params, beh: f.Case.Behaviour, hist: f.Case.Hist}
 		for try := 0; try < 5; try++ {
 			keys, err := rerun(ci)
 			if err != nil {
